@@ -244,6 +244,24 @@ func runC19(r *core.Run) {
 				return o2
 			}
 			out.Evals += o2.Evals
+			// leaves represented by an empty non-nil slice / a zero-length slice with capacity
+			for variant := 0; variant < 2; variant++ {
+				root, nodes = buildTree(c.Code)
+				for _, n := range nodes {
+					if len(n.Children) == 0 {
+						if variant == 0 {
+							n.Children = []*newick.Node{}
+						} else {
+							n.Children = make([]*newick.Node, 0, 3)
+						}
+					}
+				}
+				o3 := checkTraversal(root, nodes, fmt.Sprint("tree ", c.Code, " whose leaves have an empty non-nil Children slice (variant ", variant, ")"))
+				if o3.Fail != "" {
+					return o3
+				}
+				out.Evals += o3.Evals
+			}
 			return out
 		})
 
